@@ -15,6 +15,9 @@ type SubPlan struct {
 	// SameType: the substitute is a fresh instance of the component's own concrete type (a decorated
 	// copy), so it can also stand in for *T fields; otherwise it is a *Wrap.
 	SameType bool `json:"same_type,omitempty"`
+	// ZeroSize: the substitutes are zero-size objects of two different types (*ZWrap1 for odd versions,
+	// *ZWrap2 for even ones); at most one component per scenario may use this mode.
+	ZeroSize bool `json:"zero_size,omitempty"`
 }
 
 // Substituter is a harness SmartInstantiationAware post-processor that substitutes chosen
@@ -41,6 +44,9 @@ func (s *Substituter) wrap(c any, name string, reuse bool) any {
 		if last.Copy != nil {
 			return last.Copy
 		}
+		if last.Zero != nil {
+			return last.Zero
+		}
 		return last
 	}
 	orig := c
@@ -53,6 +59,15 @@ func (s *Substituter) wrap(c any, name string, reuse bool) any {
 	}
 	w := &Wrap{Orig: orig, OrigName: name, Version: len(s.Made[name]) + 1}
 	s.Made[name] = append(s.Made[name], w)
+	if p := s.Plan[name]; p.ZeroSize && s.Run != nil {
+		var z any = &ZWrap1{}
+		if w.Version%2 == 0 {
+			z = &ZWrap2{}
+		}
+		s.Run.SubInfo[z] = w
+		w.Zero = z
+		return z
+	}
 	if p := s.Plan[name]; p.SameType {
 		if n, ok := orig.(Node); ok {
 			// decorated copy of the same concrete type
